@@ -43,7 +43,7 @@ TNext == /\ phase = "pre" /\ phase' = "post" /\ UNCHANGED l
                  \/ r.act = "scale" /\ \E k \in Scales : Scale(k) /\ path'[1].arg = r.arg
               /\ repr' = r.post_repr
               /\ path'[1].ok = ~r.refused
-              /\ Matches(Observation', r)
+              /\ Matches(path'[1].obs, r)             \* the observation of the successor state, as logged by the action
 
 Stuck == (phase = "pre" /\ ~ENABLED TNext) => PrintT(ToJson([stuck |-> Recs[l].id]))
 =============================================================================
